@@ -8,12 +8,8 @@ from pyvc.execu import Contract, LoopSpec, register
 
 from .model import (
     CBQ, ENV_MODIFIES, GK_ALL, GK_CALL, W, env_effect, kw_state, locked, mstate, others_kept,
-    prefix_kept, qarr, qh, qt, rtc, wf_world,
+    prefix_kept, qarr, qh, qt, rtc, wf_world, AsyncBinding, reg_has, reg_exec, group_empty, exec_len,
 )
-
-
-def reg_has(s, key):
-    return z3.Select(s.sel("dict.has", W.REGD), key)
 
 
 def glog_record(s0, s, key, kwargs, kind):
@@ -50,6 +46,8 @@ class RegCall(Contract):
     def pre(self, s, a):
         f = dict(wf_world(s))
         f["self-is-registry"] = a.self.e == W.REG
+        f["rtc-implies-lock-held"] = z3.Implies(rtc(s), locked(s))
+        f["kwargs-is-not-the-registry"] = a.kwargs.e != W.REGD
         return f
 
     def ghost_entry(self, path, a):
@@ -60,6 +58,11 @@ class RegCall(Contract):
         path.hset("ghost.g_ks", z3.Store(path.hget("ghost.g_ks"), g, kw_state(s, a.kwargs)))
         path.hset("ghost.g_kind", z3.Store(path.hget("ghost.g_kind"), g, z3.IntVal(self.kind)))
         path.hset("ghost.ng", g + 1)
+
+    def ghost_exit(self, path, a, r):
+        g0 = path.run.init_heap_value("ghost.ng")
+        path.hset("ghost.g_res", z3.Store(path.hget("ghost.g_res"), g0, path.sel("list.arr", r.e)))
+        path.hset("ghost.g_reslen", z3.Store(path.hget("ghost.g_reslen"), g0, path.sel("list.len", r.e)))
 
     def post(self, s0, s, a, r):
         g0 = s0.g("ng")
@@ -72,7 +75,7 @@ class RegCall(Contract):
                                     z3.Select(s.g("g_res"), g0) == s.sel("list.arr", r)),
             "result:never-the-private-sentinel": z3.ForAll([k], z3.Implies(
                 z3.And(k >= 0, k < s.sel("list.len", r)), z3.Select(s.sel("list.arr", r), k) != W.SENT)),
-            "absent-key:no-callback-runs": z3.Implies(z3.Not(reg_has(s0, a.key.e)), z3.And(
+            "empty-group:no-callback-runs": z3.Implies(group_empty(s0, a.key.e), z3.And(
                 s.sel("list.len", r) == 0, nothing_happens(s0, s))),
         })
         return f
@@ -80,7 +83,7 @@ class RegCall(Contract):
     def exc_post(self, s0, s, a, x):
         f = glog_record(s0, s, a.key.e, a.kwargs, self.kind)
         f.update(env_effect(s0, s))
-        f["absent-key:cannot-raise"] = reg_has(s0, a.key.e)
+        f["empty-group:cannot-raise"] = z3.Not(group_empty(s0, a.key.e))
         return f
 
 
@@ -90,9 +93,8 @@ class SyncRegCall(RegCall):
 
 
 @register
-class AsyncRegCall(RegCall):
+class AsyncRegCall(AsyncBinding, RegCall):
     qualnames = [CBQ + "CallbacksRegistry.async_call"]
-    is_async = True
 
 
 class RegAll(Contract):
@@ -109,13 +111,17 @@ class RegAll(Contract):
     pre = RegCall.pre
     ghost_entry = RegCall.ghost_entry
 
+    def ghost_exit(self, path, a, r):
+        g0 = path.run.init_heap_value("ghost.ng")
+        path.hset("ghost.g_ok", z3.Store(path.hget("ghost.g_ok"), g0, r.e))
+
     def post(self, s0, s, a, r):
         g0 = s0.g("ng")
         f = glog_record(s0, s, a.key.e, a.kwargs, self.kind)
         f.update(env_effect(s0, s))
         f["result:logged"] = z3.Select(s.g("g_ok"), g0) == r.e
-        f["absent-key:true-and-no-callback-runs"] = z3.Implies(
-            z3.Not(reg_has(s0, a.key.e)), z3.And(r.e, nothing_happens(s0, s)))
+        f["empty-group:true-and-no-callback-runs"] = z3.Implies(
+            group_empty(s0, a.key.e), z3.And(r.e, nothing_happens(s0, s)))
         return f
 
     exc_post = RegCall.exc_post
@@ -127,6 +133,446 @@ class SyncRegAll(RegAll):
 
 
 @register
-class AsyncRegAll(RegAll):
+class AsyncRegAll(AsyncBinding, RegAll):
     qualnames = [CBQ + "CallbacksRegistry.async_all"]
-    is_async = True
+
+
+# =========================================================================== class tables
+from pyvc.core import A_II, ClassModel, MethodSpec, declare_ghost  # noqa: E402
+from .model import C, INL  # noqa: E402
+
+declare_ghost("ncb", Int)  # callback-level log cursor: one record per CallbackWrapper invocation
+declare_ghost("cb_who", A_II)  # which wrapper
+declare_ghost("cb_ms", A_II)  # model state value when it was invoked
+declare_ghost("cb_ks", A_II)  # kwargs['state'] when it was invoked
+
+CB_LOG = ["ghost.ncb", "ghost.cb_who", "ghost.cb_ms", "ghost.cb_ks"]
+CB_MODIFIES = ENV_MODIFIES + CB_LOG
+
+# oracles of user code, indexed by the invocation number (every invocation may behave differently)
+CB_RAW = z3.Function("CB_RAW", Int, Int)  # what invocation #c of a user callable returned
+CB_FINAL = z3.Function("CB_FINAL", Int, Int)  # ... and what awaiting that yields (itself if not awaitable)
+AWAITABLE = z3.Function("AWAITABLE", Int, Bool)
+COND = z3.Function("COND", Int, Int, Bool)  # spec.cond(event=...) — a pure function of the event
+CNT = z3.Function("CNT", Int, Int, Int, Int)  # CNT(executor, event, j): #applicable wrappers among the first j
+
+ClassModel(
+    "CallbacksExecutor",
+    fields={"items": "deque[CallbackWrapper]", "items_already_seen": "sset"},
+    iter_fn=lambda ex, path, v: O(path.sel("CallbacksExecutor.items", v.e), "deque[CallbackWrapper]"),
+    methods={
+        "call": C(CBQ + "CallbacksExecutor.call"),
+        "all": C(CBQ + "CallbacksExecutor.all"),
+        "async_call": C(CBQ + "CallbacksExecutor.async_call"),
+        "async_all": C(CBQ + "CallbacksExecutor.async_all"),
+    },
+)
+ClassModel(
+    "CallbackWrapper",
+    fields={"_callback": "UserCallable", "_iscoro": "bool", "condition": "CondCallable", "meta": "CallbackSpec",
+            "unique_key": "str", "expected_value": "Val"},
+    methods={"call": C(CBQ + "CallbackWrapper.call"), "__call__": C(CBQ + "CallbackWrapper.__call__")},
+)
+ClassModel("UserCallable", methods={"__call__": C("user:callback")})
+ClassModel("CondCallable", methods={"__call__": C("user:condition")})
+ClassModel("CallbackSpec", fields={"is_convention": "bool", "expected_value": "Val", "cond": "Opt[CondCallable]",
+                                   "priority": "int", "group": "int"})
+val_model = __import__("pyvc.core", fromlist=["CLASSES"]).CLASSES["Val"]
+val_model.awaitable_fn = lambda path, v: AWAITABLE(v.e)
+val_model.methods["__await__"] = C("user:await")
+
+
+def cb_log_prefix_kept(s0, s):
+    c0 = s0.g("ncb")
+    return z3.And(s.g("ncb") >= c0, prefix_kept(s0.g("cb_who"), s.g("cb_who"), c0, "cw"),
+                  prefix_kept(s0.g("cb_ms"), s.g("cb_ms"), c0, "cm"), prefix_kept(s0.g("cb_ks"), s.g("cb_ks"), c0, "ck"))
+
+
+def user_effect(s0, s):
+    """EnvCB for one invocation of user code, including what it may do to the callback log:
+    RTC: nothing (no callback of this machine can run inside a callback); non-RTC: it grows."""
+    rl = z3.And(rtc(s0), locked(s0))
+    f = dict(env_effect(s0, s))
+    f["env:rtc-no-callback-inside-a-callback"] = z3.Implies(rl, z3.And(
+        s.g("ncb") == s0.g("ncb"), s.g("cb_who") == s0.g("cb_who"), s.g("cb_ms") == s0.g("cb_ms"),
+        s.g("cb_ks") == s0.g("cb_ks"), s.g("ng") == s0.g("ng")))
+    f["env:cb-log-prefix-kept"] = cb_log_prefix_kept(s0, s)
+    return f
+
+
+@register
+class UserCB(Contract):
+    """ORACLE (assumed, DESIGN 3.4): one invocation of a user callable.  It returns CB_RAW(c) for
+    the current invocation number c, or raises anything; its effects obey EnvCB."""
+
+    qualnames = ["user:callback"]
+    params = [("self", "UserCallable"), ("*args", "tuple"), ("**kwargs", "dict[str,Val]")]
+    returns = "Val"
+    raises = True
+    modifies = CB_MODIFIES
+    trusted = True
+
+    def post(self, s0, s, a, r):
+        f = user_effect(s0, s)
+        c = s0.g("ncb") - 1
+        f["oracle:raw-value"] = r.e == CB_RAW(c)
+        f["oracle:final-of-non-awaitable"] = z3.Implies(z3.Not(AWAITABLE(CB_RAW(c))), CB_FINAL(c) == CB_RAW(c))
+        f["oracle:never-the-private-sentinel"] = z3.And(CB_RAW(c) != W.SENT, CB_FINAL(c) != W.SENT)
+        return f
+
+    def exc_post(self, s0, s, a, x):
+        return user_effect(s0, s)
+
+    def assumptions(self):
+        return ["user callbacks, guards, validators and property getters are oracles constrained only by EnvCB"]
+
+
+@register
+class UserAwait(Contract):
+    """ORACLE: awaiting the awaitable a user coroutine function returned for invocation #c."""
+
+    qualnames = ["user:await"]
+    params = [("self", "Val")]
+    returns = "Val"
+    raises = True
+    modifies = CB_MODIFIES
+    trusted = True
+    is_async = False
+
+    def post(self, s0, s, a, r):
+        f = user_effect(s0, s)
+        c = s0.g("ncb") - 1
+        f["oracle:final-value"] = z3.Implies(a.self.e == CB_RAW(c), r.e == CB_FINAL(c))
+        return f
+
+    def exc_post(self, s0, s, a, x):
+        return user_effect(s0, s)
+
+
+@register
+class CondCall(Contract):
+    """ORACLE: CallbackWrapper.condition — `allways_true` or `Event.is_same_event`: a pure function
+    of the `event` keyword (Event.is_same_event is verified against this shape separately)."""
+
+    qualnames = ["user:condition"]
+    params = [("self", "CondCallable"), ("*args", "tuple"), ("**kwargs", "dict[str,Val]")]
+    returns = "bool"
+    modifies = []
+    trusted = True
+
+    def post(self, s0, s, a, r):
+        return {"pure-in-event": r.e == COND(a.self.e, z3.Select(s0.sel("dict.val", a.kwargs), z3.StringVal("event")))}
+
+
+def kw_event(s, kwargs):
+    return z3.Select(s.sel("dict.val", kwargs), z3.StringVal("event"))
+
+
+def conv(s, w, v):
+    """What a wrapper returns for raw callback value v: the value itself, or for guards
+    bool(value) == expected_value (cond: True, unless: False)."""
+    exp = s.sel("CallbackWrapper.expected_value", w)
+    from pyvc.core import boxb, TRUE_OBJ
+    return z3.If(exp == NONE, v, boxb(truthy(v) == (exp == TRUE_OBJ)))
+
+
+def wrapper_wf(s, w):
+    from pyvc.core import TRUE_OBJ, FALSE_OBJ
+    exp = s.sel("CallbackWrapper.expected_value", w)
+    return z3.And(z3.Or(exp == NONE, exp == TRUE_OBJ, exp == FALSE_OBJ),
+                  s.sel("CallbackWrapper._callback", w) >= FIRST_ADDR, s.sel("CallbackWrapper.condition", w) >= FIRST_ADDR)
+
+
+class WrapperCall(Contract):
+    """CallbackWrapper.call / __call__ (C01 expected_value, C02 one log record per invocation,
+    C05 awaitable results are awaited before use, C14 the value is the callback's own)."""
+
+    qualnames = [CBQ + "CallbackWrapper.call"]
+    params = [("self", "CallbackWrapper"), ("*args", "tuple"), ("**kwargs", "dict[str,Val]")]
+    returns = "Val"
+    raises = True
+    modifies = CB_MODIFIES
+    properties = ["C01", "C02", "C05", "C08", "C14"]
+
+    def pre(self, s, a):
+        f = dict(wf_world(s))
+        f["wrapper-wf"] = wrapper_wf(s, a.self.e)
+        f["rtc-implies-lock-held"] = z3.Implies(rtc(s), locked(s))
+        f["kwargs-is-not-the-registry"] = a.kwargs.e != W.REGD
+        return f
+
+    def ghost_entry(self, path, a):
+        c = path.hget("ghost.ncb")
+        s = path.view()
+        path.hset("ghost.cb_who", z3.Store(path.hget("ghost.cb_who"), c, a.self.e))
+        path.hset("ghost.cb_ms", z3.Store(path.hget("ghost.cb_ms"), c, mstate(s)))
+        path.hset("ghost.cb_ks", z3.Store(path.hget("ghost.cb_ks"), c, kw_state(s, a.kwargs)))
+        path.hset("ghost.ncb", c + 1)
+
+    def _record(self, s0, s, a):
+        c0 = s0.g("ncb")
+        rl = z3.And(rtc(s0), locked(s0))
+        return {
+            "C02|logged-once:who": z3.Select(s.g("cb_who"), c0) == a.self.e,
+            "C02|logged-once:model-state": z3.Select(s.g("cb_ms"), c0) == mstate(s0),
+            "C02|logged-once:kwargs-state": z3.Select(s.g("cb_ks"), c0) == kw_state(s0, a.kwargs),
+            "C02|rtc:exactly-one-record": z3.Implies(rl, z3.And(
+                s.g("ncb") == c0 + 1, s.g("cb_who") == z3.Store(s0.g("cb_who"), c0, a.self.e),
+                s.g("cb_ms") == z3.Store(s0.g("cb_ms"), c0, mstate(s0)),
+                s.g("cb_ks") == z3.Store(s0.g("cb_ks"), c0, kw_state(s0, a.kwargs)),
+                s.g("ng") == s0.g("ng"))),
+            "cb-log-prefix-kept": cb_log_prefix_kept(s0, s),
+        }
+
+    def post(self, s0, s, a, r):
+        c0 = s0.g("ncb")
+        f = self._record(s0, s, a)
+        f.update(env_effect(s0, s))
+        f["C01,C08,C14|result-is-the-callbacks-own-value-or-guard-verdict"] = r.e == conv(s0, a.self.e, CB_FINAL(c0))
+        f["C03|never-the-private-sentinel"] = r.e != W.SENT
+        return f
+
+    def exc_post(self, s0, s, a, x):
+        f = self._record(s0, s, a)
+        f.update(env_effect(s0, s))
+        return f
+
+
+@register
+class SyncWrapperCall(WrapperCall):
+    def reveal(self, s, a):
+        # ENG (DESIGN 3.3): a SyncEngine machine has no coroutine callbacks (has_async_callbacks is
+        # False), so what its callbacks return is not awaitable.  C12 records where this breaks.
+        c = z3.Const("c!sw", Int)
+        return {"sync-engine-callbacks-return-plain-values": z3.ForAll([c], z3.Not(AWAITABLE(CB_RAW(c))))}
+
+
+@register
+class AsyncWrapperCall(AsyncBinding, WrapperCall):
+    qualnames = [CBQ + "CallbackWrapper.__call__"]
+
+
+# =========================================================================== CallbacksExecutor
+def exec_items(s, ex):
+    """(item(j), n, deque ref) of a CallbacksExecutor."""
+    dq = s.sel("CallbacksExecutor.items", ex)
+    arr, h, t = s.sel("deque.arr", dq), s.sel("deque.head", dq), s.sel("deque.tail", dq)
+    return (lambda j: z3.Select(arr, h + j)), t - h, dq
+
+
+def exec_wf(s, ex):
+    item, n, dq = exec_items(s, ex)
+    j = z3.Const("j!ew", Int)
+    return z3.And(dq != W.Q, dq >= FIRST_ADDR, dq < s["ghost.alloc"], n >= 0,
+                  z3.ForAll([j], z3.Implies(z3.And(j >= 0, j < n), z3.And(
+                      item(j) >= FIRST_ADDR, item(j) < s["ghost.alloc"], wrapper_wf(s, item(j))))))
+
+
+def cnt_definition(s, ex, ev):
+    """CNT(ex, ev, j) = number of wrappers among the first j whose condition holds for ev."""
+    item, n, _ = exec_items(s, ex)
+    j = z3.Const("j!cnt", Int)
+    cj = COND(s.sel("CallbackWrapper.condition", item(j - 1)), ev)
+    j1, j2 = z3.Const("j1!cnt", Int), z3.Const("j2!cnt", Int)
+    return z3.And(
+        CNT(ex, ev, 0) == 0,
+        z3.ForAll([j], z3.Implies(z3.And(j >= 1, j <= n),
+                                  CNT(ex, ev, j) == CNT(ex, ev, j - 1) + z3.If(cj, 1, 0)),
+                  patterns=[CNT(ex, ev, j)]),
+        # monotonicity: an inductive consequence of the definition (lemma `cnt-monotone`, whose
+        # base and step cases are discharged separately, see lemma_cnt_monotone)
+        z3.ForAll([j1, j2], z3.Implies(z3.And(0 <= j1, j1 <= j2, j2 <= n), CNT(ex, ev, j1) <= CNT(ex, ev, j2)),
+                  patterns=[z3.MultiPattern(CNT(ex, ev, j1), CNT(ex, ev, j2))]))
+
+
+def lemma_cnt_monotone():
+    """Induction on j2 for: 0 <= j1 <= j2 <= n  =>  CNT(j1) <= CNT(j2), from the recursive
+    definition alone (base j2 = j1; step j2 -> j2+1)."""
+    from pyvc.core import Obligation
+    ex, ev, n = z3.Ints("ex!l ev!l n!l")
+    j, j1, j2 = z3.Ints("j!l j1!l j2!l")
+    cond = z3.Function("applicable!l", Int, Bool)
+    defn = z3.ForAll([j], z3.Implies(z3.And(j >= 1, j <= n),
+                                     CNT(ex, ev, j) == CNT(ex, ev, j - 1) + z3.If(cond(j - 1), 1, 0)),
+                     patterns=[CNT(ex, ev, j)])
+    base = Obligation("lemma:cnt-monotone/base", "lemma", "lemma", [defn, j1 >= 0, j1 <= n],
+                      CNT(ex, ev, j1) <= CNT(ex, ev, j1))
+    step = Obligation("lemma:cnt-monotone/step", "lemma", "lemma",
+                      [defn, 0 <= j1, j1 <= j2, j2 + 1 <= n, CNT(ex, ev, j1) <= CNT(ex, ev, j2)],
+                      CNT(ex, ev, j1) <= CNT(ex, ev, j2 + 1))
+    return [base, step]
+
+
+class ExecCall(Contract):
+    """CallbacksExecutor.call / async_call (C02: every applicable callback exactly once, in
+    executor order; C14: the list of their own return values)."""
+
+    qualnames = [CBQ + "CallbacksExecutor.call"]
+    params = [("self", "CallbacksExecutor"), ("*args", "tuple"), ("**kwargs", "dict[str,Val]")]
+    returns = "list[Val]"
+    raises = True
+    modifies = CB_MODIFIES
+    properties = ["C02", "C05", "C12", "C14"]
+
+    def pre(self, s, a):
+        f = dict(wf_world(s))
+        f["executor-wf"] = exec_wf(s, a.self.e)
+        f["rtc-implies-lock-held"] = z3.Implies(rtc(s), locked(s))
+        f["kwargs-is-not-the-registry"] = a.kwargs.e != W.REGD
+        return f
+
+    def reveal(self, s, a):
+        return {"CNT-definition": cnt_definition(s, a.self.e, kw_event(s, a.kwargs))}
+
+    def _applied(self, s0, s, a, upto, lst):
+        """Wrappers among the first `upto` whose condition holds were each invoked once, in order,
+        seeing the state of entry; `lst` holds their values at the matching positions."""
+        item, n, _ = exec_items(s0, a.self.e)
+        ev = kw_event(s0, a.kwargs)
+        c0 = s0.g("ncb")
+        j = z3.Const("j!ap", Int)
+        pos = CNT(a.self.e, ev, j)
+        applicable = COND(s0.sel("CallbackWrapper.condition", item(j)), ev)
+        facts = [z3.Select(s.g("cb_who"), c0 + pos) == item(j),
+                 z3.Select(s.g("cb_ms"), c0 + pos) == mstate(s0),
+                 z3.Select(s.g("cb_ks"), c0 + pos) == kw_state(s0, a.kwargs)]
+        if lst is not None:
+            facts.append(z3.Select(s.sel("list.arr", lst), pos) == conv(s0, item(j), CB_FINAL(c0 + pos)))
+        return z3.ForAll([j], z3.Implies(z3.And(j >= 0, j < upto, applicable), z3.And(*facts)))
+
+    def post(self, s0, s, a, r):
+        item, n, _ = exec_items(s0, a.self.e)
+        ev = kw_event(s0, a.kwargs)
+        c0 = s0.g("ncb")
+        rl = z3.And(rtc(s0), locked(s0))
+        k = z3.Const("k!ec", Int)
+        m = CNT(a.self.e, ev, n)
+        f = dict(env_effect(s0, s))
+        f["cb-log-prefix-kept"] = cb_log_prefix_kept(s0, s)
+        f["result:fresh-list"] = z3.And(r.e >= s0["ghost.alloc"], r.e < s["ghost.alloc"], s.sel("list.len", r) >= 0)
+        f["C03|result:never-the-private-sentinel"] = z3.ForAll([k], z3.Implies(
+            z3.And(k >= 0, k < s.sel("list.len", r)), z3.Select(s.sel("list.arr", r), k) != W.SENT))
+        f["C02,C12|rtc:exactly-the-applicable-callbacks-once-each"] = z3.Implies(rl, z3.And(
+            s.g("ncb") == c0 + m, s.g("ng") == s0.g("ng")))
+        f["C02,C12|rtc:in-executor-order-with-entry-state"] = z3.Implies(rl, self._applied(s0, s, a, n, None))
+        f["C14|rtc:result-is-their-values-in-order"] = z3.Implies(rl, z3.And(
+            s.sel("list.len", r) == m, self._applied(s0, s, a, n, r.e)))
+        return f
+
+    def exc_post(self, s0, s, a, x):
+        f = dict(env_effect(s0, s))
+        f["cb-log-prefix-kept"] = cb_log_prefix_kept(s0, s)
+        f["rtc:no-group-record"] = z3.Implies(z3.And(rtc(s0), locked(s0)), s.g("ng") == s0.g("ng"))
+        return f
+
+    def _inv(self, s0, s, a, l):
+        ev = kw_event(s0, a.kwargs)
+        c0 = s0.g("ncb")
+        rl = z3.And(rtc(s0), locked(s0))
+        acc = getattr(l, "__acc0").e
+        k = z3.Const("k!ei", Int)
+        ci = CNT(a.self.e, ev, l.i)
+        f = dict(env_effect(s0, s))
+        f["cb-log-prefix-kept"] = cb_log_prefix_kept(s0, s)
+        f["count-bounds"] = z3.And(ci >= 0, ci <= l.i)
+        f["acc:fresh"] = z3.And(acc >= s0["ghost.alloc"], acc < s["ghost.alloc"], s.sel("list.len", acc) >= 0)
+        f["acc:no-sentinel"] = z3.ForAll([k], z3.Implies(
+            z3.And(k >= 0, k < s.sel("list.len", acc)), z3.Select(s.sel("list.arr", acc), k) != W.SENT))
+        f["rtc:one-record-per-applicable-callback"] = z3.Implies(rl, z3.And(
+            s.g("ncb") == c0 + ci, s.sel("list.len", acc) == ci, s.g("ng") == s0.g("ng")))
+        f["rtc:records-in-order"] = z3.Implies(rl, self._applied(s0, s, a, l.i, None))
+        f["rtc:values-in-order"] = z3.Implies(rl, self._applied(s0, s, a, l.i, acc))
+        f["lock-still-held"] = z3.Implies(rtc(s0), locked(s) == locked(s0))
+        return f
+
+    @property
+    def loops(self):
+        return {0: LoopSpec(self._inv, elem="Val")}
+
+
+@register
+class SyncExecCall(ExecCall):
+    pass
+
+
+class ExecAll(Contract):
+    """CallbacksExecutor.all / async_all (C01, C08: a transition is enabled iff EVERY guard entry
+    gives its expected verdict; sync: evaluated in order up to and including the first failure)."""
+
+    qualnames = [CBQ + "CallbacksExecutor.all"]
+    params = ExecCall.params
+    returns = "bool"
+    raises = True
+    modifies = CB_MODIFIES
+    properties = ["C01", "C05", "C08", "C12"]
+
+    pre = ExecCall.pre
+
+    def verdict(self, s0, a, j):
+        item, n, _ = exec_items(s0, a.self.e)
+        return truthy(conv(s0, item(j), CB_FINAL(s0.g("ncb") + j)))
+
+    def _evaluated(self, s0, s, a, upto):
+        item, n, _ = exec_items(s0, a.self.e)
+        c0 = s0.g("ncb")
+        j = z3.Const("j!ea", Int)
+        return z3.ForAll([j], z3.Implies(z3.And(j >= 0, j < upto), z3.And(
+            z3.Select(s.g("cb_who"), c0 + j) == item(j), z3.Select(s.g("cb_ms"), c0 + j) == mstate(s0),
+            z3.Select(s.g("cb_ks"), c0 + j) == kw_state(s0, a.kwargs))))
+
+    def _all_pass(self, s0, a, upto):
+        j = z3.Const("j!eap", Int)
+        return z3.ForAll([j], z3.Implies(z3.And(j >= 0, j < upto), self.verdict(s0, a, j)))
+
+    def post(self, s0, s, a, r):
+        item, n, _ = exec_items(s0, a.self.e)
+        c0 = s0.g("ncb")
+        rl = z3.And(rtc(s0), locked(s0))
+        m = s.g("ncb") - c0
+        f = dict(env_effect(s0, s))
+        f["cb-log-prefix-kept"] = cb_log_prefix_kept(s0, s)
+        f["C01,C08|rtc:enabled-iff-every-guard-gives-its-expected-verdict"] = z3.Implies(
+            rl, r.e == self._all_pass(s0, a, n))
+        f["C01,C02|rtc:evaluated-in-order-up-to-first-failure"] = z3.Implies(rl, z3.And(
+            m >= 0, m <= n, self._evaluated(s0, s, a, m), self._all_pass(s0, a, m - 1),
+            z3.Implies(r.e, m == n), z3.Implies(z3.Not(r.e), z3.And(m >= 1, z3.Not(self.verdict(s0, a, m - 1)))),
+            s.g("ng") == s0.g("ng")))
+        return f
+
+    exc_post = ExecCall.exc_post
+
+    def _inv(self, s0, s, a, l):
+        c0 = s0.g("ncb")
+        rl = z3.And(rtc(s0), locked(s0))
+        f = dict(env_effect(s0, s))
+        f["cb-log-prefix-kept"] = cb_log_prefix_kept(s0, s)
+        f["rtc:all-so-far-passed"] = z3.Implies(rl, z3.And(
+            s.g("ncb") == c0 + l.i, s.g("ng") == s0.g("ng"), self._evaluated(s0, s, a, l.i), self._all_pass(s0, a, l.i)))
+        f["lock-still-held"] = z3.Implies(rtc(s0), locked(s) == locked(s0))
+        return f
+
+    @property
+    def loops(self):
+        return {0: LoopSpec(self._inv)}
+
+
+@register
+class SyncExecAll(ExecAll):
+    pass
+
+
+@register
+class AsyncExecCall(AsyncBinding, ExecCall):
+    qualnames = [CBQ + "CallbacksExecutor.async_call"]
+
+
+@register
+class AsyncExecAll(AsyncBinding, ExecAll):
+    """Same contract as the sync `all`.  Loop 0 is the list of started guard coroutines, loop 1
+    the as_completed loop that awaits them."""
+
+    qualnames = [CBQ + "CallbacksExecutor.async_all"]
+
+    @property
+    def loops(self):
+        return {0: LoopSpec(None, coro_list=True), 1: LoopSpec(self._inv)}
